@@ -66,3 +66,21 @@ case("C07", "dls-backward", "VIOLATION", [(D, "multipliers = torch.autograd.grad
 case("C07", "dls-zero-grad", "VIOLATION", [(D, "\tmodel = model.to(device).eval()\n\tfor module in model.modules():", "\tmodel = model.to(device).eval()\n\tmodel.zero_grad()\n\tfor module in model.modules():")], "R-MODEL")
 case("C07", "dls-requires-grad-off", "VIOLATION", [(D, "\tmodel = model.to(device).eval()\n\tfor module in model.modules():", "\tmodel = model.to(device).eval()\n\tfor p in model.parameters():\n\t\tp.requires_grad_(False)\n\tfor module in model.modules():")], "R-MODEL")
 case("C07", "design-float-cast", "VIOLATION", [("tangermeme/design.py", "\ttic = time.time()\n\titeration = 0", "\ttic = time.time()\n\tmodel = model.float()\n\titeration = 0")], "R-MODEL")
+
+# ------------------------------------------------------------------ C03
+case("C03", "args-window-shift", "VIOLATION", [(P, "args_ = [a[start:end].to(device) for a in args]", "args_ = [a[start:end+1].to(device) for a in args]")], "R-ARGWIN")
+case("C03", "args-fixed-window", "VIOLATION", [(P, "args_ = [a[start:end].to(device) for a in args]", "args_ = [a[:batch_size].to(device) for a in args]")], "R-ARGWIN")
+case("C03", "args-not-windowed", "VIOLATION", [(P, "args_ = [a[start:end].to(device) for a in args]", "args_ = [a.to(device) for a in args]")], "R-ARGWIN")
+case("C03", "x-window-short", "VIOLATION", [(P, "end = start + batch_size", "end = start + batch_size - 1")], "R-ARGWIN")
+case("C03", "loop-starts-at-1", "VIOLATION", [(P, "trange(0, X.shape[0], batch_size", "trange(1, X.shape[0], batch_size")], "R-ARGWIN")
+case("C03", "loop-stops-early", "VIOLATION", [(P, "trange(0, X.shape[0], batch_size", "trange(0, X.shape[0] - 1, batch_size")], "R-ARGWIN")
+case("C03", "order-insert-front", "VIOLATION", [(P, "\t\t\ty.append(y_)", "\t\t\ty.insert(0, y_)")], "ORDER")
+case("C03", "order-cat-dim1", "VIOLATION", [(P, "\t\ty = torch.cat(y)\n", "\t\ty = torch.cat(y, dim=1)\n")], "ORDER")
+case("C03", "order-conditional-append", "VIOLATION", [(P, "\t\t\ty.append(y_)", "\t\t\tif start > 0 or len(y) == 0:\n\t\t\t\ty.append(y_)")], "ORDER")
+case("C03", "argscheck-removed", "VIOLATION", [(P, "\t\t\tif arg.shape[0] != X.shape[0]:\n\t\t\t\traise ValueError(\"Arguments must have the same first \" +\n\t\t\t\t\t\"dimension as X\")", "\t\t\tpass")], "ARGS-CHECK")
+case("C03", "argscheck-first-only", "VIOLATION", [(P, "\t\tfor arg in args:\n\t\t\tif arg.shape[0] != X.shape[0]:", "\t\tfor arg in args[:1]:\n\t\t\tif arg.shape[0] != X.shape[0]:")], "ARGS-CHECK")
+case("C03", "args-reversed", "VIOLATION", [(P, "y_ = model(X_, *args_)", "y_ = model(X_, *reversed(args_))")], "R-ARGWIN")
+case("C03", "x-clone-input-write", "VIOLATION", [(P, "X_ = X[start:end].to(device).type(dtype)", "X_ = X[start:end]\n\t\t\tX_ *= 1\n\t\t\tX_ = X_.to(device).type(dtype)")], "R-PURE")
+case("C03", "slice-object-shared", "HOLDS", [(P, "end = start + batch_size\n\t\t\tX_ = X[start:end].to(device).type(dtype)", "end = batch_size + start\n\t\t\tX_ = X[start:end].type(dtype).to(device)")])
+case("C03", "end-inline", "HOLDS", [(P, "args_ = [a[start:end].to(device) for a in args]", "args_ = [a[start:start + batch_size].to(device) for a in args]")])
+case("C03", "no-eval", "VIOLATION", [(P, "model = model.to(device).eval()", "model = model.to(device)")], "R-EVAL")
